@@ -15,7 +15,9 @@ RULE = ("constant-rich expressions (arithmetic, ~, comparisons, inline-if, filte
         "arguments, macro defaults and loop iterables, under autoescape off / on / static autoescape "
         "blocks / runtime-decided autoescape blocks; render(T) == render(T, optimized=False) == "
         "render(lift(T)) or same exception class, where lift replaces literal leaves and random constant "
-        "interior subtrees (value computed at run time by an unoptimised environment) by variables. "
+        "interior subtrees (value computed at run time by an unoptimised environment) by variables; "
+        "60% default environment, 40% with an environment finalize (None -> '', type-revealing, "
+        "pass_environment, pass_context). "
         "distinct = expression skeletons containing a constant interior node (foldable)")
 LEVEL_TEXT = "held on the generated templates only"
 ASSUMPTIONS = ["interior subtrees are lifted only where the autoescape mode is static"]
@@ -24,11 +26,38 @@ BUDGET_S = {"quick": 22, "thorough": 500}
 FLOORS = {
     "quick": {"evaluations": 6000, "distinct": 1200,
               "counters": {"unopt_compares": 2000, "lift_compares": 2000, "interior_lifts": 500,
-                           "mode_volatile": 200, "mode_on": 200, "with_safe_const": 200}},
+                           "mode_volatile": 200, "mode_on": 200, "with_safe_const": 200,
+                           "finalize_none": 300, "finalize_type": 300, "finalize_env": 100, "finalize_ctx": 100}},
     "thorough": {"evaluations": 120000, "distinct": 20000,
                  "counters": {"unopt_compares": 40000, "lift_compares": 40000, "interior_lifts": 10000,
-                              "mode_volatile": 4000, "mode_on": 4000, "with_safe_const": 4000}},
+                              "mode_volatile": 4000, "mode_on": 4000, "with_safe_const": 4000,
+                              "finalize_none": 6000, "finalize_type": 6000, "finalize_env": 2000,
+                              "finalize_ctx": 2000}},
 }
+
+def _fin_none(v):
+    return "" if v is None else v
+
+
+def _fin_type(v):
+    return f"{type(v).__name__}={v}"
+
+
+def finalizer(name):
+    """Environment finalize functions: the documented None -> '' one, one that shows the type it
+    was handed, and the pass_environment / pass_context flavours."""
+    import jinja2
+
+    if name == "none":
+        return _fin_none
+    if name == "type":
+        return _fin_type
+    if name == "env":
+        return jinja2.pass_environment(lambda env, v: _fin_none(v))
+    if name == "ctx":
+        return jinja2.pass_context(lambda c, v: _fin_type(v))
+    raise ValueError(name)
+
 
 VOCAB = {k: v for k, v in exprgen.VOCAB.items() if k != "o1"}
 HOT = ["<b>", "a&b", '"', "x", "", "Q q", "7", "'"]
@@ -257,16 +286,17 @@ def same(a, b):
     return False
 
 
-def env_kw_for(mode):
-    if mode == "block_off":
-        return {"autoescape": True}
-    return {"autoescape": mode == "on"}
+def env_kw_for(mode, fin=None):
+    kw = {"autoescape": mode in ("on", "block_off")}
+    if fin:
+        kw["finalize"] = finalizer(fin)
+    return kw
 
 
 def disagreement(case):
     data = dict(case["data"])
     outs, src, lsrc = render3(case["body"], case["lifted"], data, {**data, **case["lvars"]},
-                              env_kw_for(case["mode"]))
+                              env_kw_for(case["mode"], case.get("finalize")))
     for other in ("unopt", "lifted"):
         if not same(outs["opt"], outs[other]):
             return other, outs, src, lsrc
@@ -282,7 +312,7 @@ def single(expr, mode, data):
             "data": data, "lvars": lf.vars}
 
 
-def minimise(exprs, mode, data):
+def minimise(exprs, mode, data, fin=None):
     """Smallest sub-expression that still disagrees when rendered alone."""
     best = None
     for e in exprs:
@@ -293,6 +323,7 @@ def minimise(exprs, mode, data):
                 continue
             try:
                 c = single(sub, mode, data)
+                c["finalize"] = fin
                 other, _, _, _ = disagreement(c)
             except Exception:
                 continue
@@ -310,15 +341,18 @@ def check_case(ctx, case, exprs=None):
     ctx.count("unopt_compares")
     ctx.count("lift_compares")
     ctx.count("mode_" + mode)
+    fin = case.get("finalize")
+    if fin:
+        ctx.count("finalize_" + fin)
     if other is None:
         return True
-    key = f"fold:{other}:{mode}"
-    what = ""
+    key = f"fold:{other}:{mode}" + (f":finalize-{fin}" if fin else "")
+    what = f" finalize={fin}" if fin else ""
     if exprs:
-        best = minimise(exprs, mode, dict(case["data"]))
+        best = minimise(exprs, mode, dict(case["data"]), fin)
         if best:
-            key = "fold:" + json.dumps(exprgen.skeleton(best[0]))[:110]
-            what = f" minimal={jast.pe(best[0])!r} ({best[1]})"
+            key = "fold:" + (f"finalize-{fin}:" if fin else "") + json.dumps(exprgen.skeleton(best[0]))[:110]
+            what += f" minimal={jast.pe(best[0])!r} ({best[1]})"
     rec = {k: v for k, v in case.items()}
     rec["lvars"] = jsonable_vars(case["lvars"])
     ctx.violation(key, f"optimized {outs['opt']!r} vs {other} {outs[other]!r}{what} | mode={mode} src={src!r} "
@@ -376,7 +410,8 @@ def build_case(rng):
         lbody += place(rng, le, i)
         exprs.append(e)
     case = {"mode": mode, "body": wrap(mode, body), "lifted": wrap(mode, lbody), "data": recipe,
-            "lvars": lifter.vars}
+            "lvars": lifter.vars,
+            "finalize": rng.choice([None, None, None, None, "none", "none", "type", "type", "env", "ctx"])}
     return case, exprs, lifter.interior
 
 
